@@ -22,6 +22,9 @@ type TrainStep struct {
 	X         []float64 `json:"x"`
 	T         []float64 `json:"t"`
 	SkipReset bool      `json:"skip_reset,omitempty"`
+	// Again (1 + index of an earlier step, 0 = none): this step feeds the very input and target
+	// tensor objects of that step again (a later epoch over the same mini-batches)
+	Again int `json:"again,omitempty"`
 }
 
 // C11Case: a model FC(F -> O) -> activation -> (Reshape to [B*O] for mse/bce) -> loss, trained
@@ -51,7 +54,21 @@ func genC11(t *rapid.T) C11Case {
 	c.LR = rapid.SampledFrom([]float64{1e-3, 0.01, 0.1, 0.5, 0.25, 0, -0.1}).Draw(t, "lr")
 	c.W0 = prog.DrawValsMode(t, c.O, 0, "small")
 	c.B0 = prog.DrawValsMode(t, c.O, 1, "small")
+	if rapid.IntRange(0, 7).Draw(t, "saturated") == 0 {
+		// units deep in the saturated range of Sigmoid / Tanh / Softmax, yet inside the losses'
+		// clipping interval (|z| up to 27): outputs of 1e-12..1e-8
+		for i := range c.B0 {
+			c.B0[i] = float64(rapid.IntRange(-27, 27).Draw(t, "bsat"))
+		}
+	}
 	ns := rapid.IntRange(1, 6).Draw(t, "steps")
+	if rapid.IntRange(0, 9).Draw(t, "longrun") == 0 {
+		// a long run of one model, one optimizer, one loss object (small steps: it stays bounded)
+		ns = rapid.IntRange(12, 40).Draw(t, "stepslong")
+		if !c.NilConf && math.Abs(c.LR) > 0.1 {
+			c.LR = 0.05
+		}
+	}
 	skipAt := -1
 	if rapid.IntRange(0, 3).Draw(t, "omitreset") == 0 {
 		skipAt = rapid.IntRange(0, ns-1).Draw(t, "skipat")
@@ -68,7 +85,28 @@ func genC11(t *rapid.T) C11Case {
 		}
 		c.Steps = append(c.Steps, st)
 	}
+	if ns >= 12 && rapid.Bool().Draw(t, "epochs") {
+		// epochs: the first 9..12 steps are the distinct mini-batches, every later step feeds one
+		// of them again, in a shuffled order
+		k := rapid.IntRange(9, 12).Draw(t, "nbatches")
+		for s := k; s < len(c.Steps); s++ {
+			j := rapid.IntRange(0, k-1).Draw(t, "again")
+			c.Steps[s].Batch, c.Steps[s].X, c.Steps[s].T, c.Steps[s].Again = c.Steps[j].Batch, c.Steps[j].X, c.Steps[j].T, j+1
+		}
+	}
 	return c
+}
+
+func sameFloats(a, b []float64) bool {
+	if len(a) != len(b) {
+		return false
+	}
+	for i := range a {
+		if a[i] != b[i] {
+			return false
+		}
+	}
+	return true
 }
 
 func checkC11(c C11Case) *Failure {
@@ -100,6 +138,8 @@ func checkC11(c C11Case) *Failure {
 	compute := newLoss(c.Loss)
 	stale := false // a reset was omitted: the parameters are spent
 	multiBatch, steps, sawStale := false, 0, false
+	var xObj, tObj []tensor.Tensor
+	epochs := false
 	for si, st := range c.Steps {
 		if st.Batch < 1 || len(st.X) != st.Batch*c.F || len(st.T) != st.Batch*c.O {
 			return nil
@@ -186,6 +226,14 @@ func checkC11(c C11Case) *Failure {
 		}
 		// the library's step
 		x := lib.MustNew([]int{st.Batch, c.F}, st.X, false)
+		var tgt tensor.Tensor
+		if j := st.Again - 1; j >= 0 && j < si && j < len(xObj) && xObj[j] != nil && c.Steps[j].Batch == st.Batch && sameFloats(c.Steps[j].X, st.X) && sameFloats(c.Steps[j].T, st.T) {
+			x, tgt = xObj[j], tObj[j]
+			epochs = true
+		}
+		for len(xObj) <= si {
+			xObj, tObj = append(xObj, nil), append(tObj, nil)
+		}
 		y, err := fc.Forward(x)
 		if err != nil {
 			return failf("step %d: FC.Forward failed: %v", si, err)
@@ -202,7 +250,11 @@ func checkC11(c C11Case) *Failure {
 				return failf("step %d: Reshape failed: %v", si, err)
 			}
 		}
-		l, err := compute(a, lib.MustNew(tshape, st.T, false))
+		if tgt == nil {
+			tgt = lib.MustNew(tshape, st.T, false)
+		}
+		xObj[si], tObj[si] = x, tgt
+		l, err := compute(a, tgt)
 		if err != nil {
 			return failf("step %d: %s.Compute failed: %v", si, c.Loss, err)
 		}
@@ -321,6 +373,12 @@ func checkC11(c C11Case) *Failure {
 	evid.Class("C11.act=" + c.Act.Kind)
 	evid.Class("C11.loss=" + c.Loss)
 	evid.ClassN("C11.steps", steps)
+	if steps >= 12 {
+		evid.Class("C11.twelve_or_more_steps")
+	}
+	if epochs {
+		evid.Class("C11.epochs_feeding_the_same_batch_tensors_again")
+	}
 	if sawStale {
 		evid.Class("C11.omitted_reset_reported")
 	}
